@@ -1,6 +1,7 @@
 package main
 
 import (
+	"os"
 	"fmt"
 	"go/token"
 	"go/types"
@@ -155,6 +156,9 @@ func (X *Exec) applyCallsites(fr *Frame, st *State, cc *ssa.CallCommon, how stri
 			v := sc.eval(u.Expr)
 			X.setHeap(st, "GH|"+u.Name, srt, v.T)
 		}
+		if cs.Snapshot {
+			st.Snap = st.Clone()
+		}
 		if cs.Skip {
 			skip = true
 		}
@@ -181,6 +185,7 @@ func (X *Exec) clauseCtx(fr *Frame, st *State, extra map[string]*Val, what strin
 		c.Vars[k] = v
 	}
 	c.TypeEnv = typeEnvOf(fr.Fn)
+	c.Snap = st.Snap
 	return c
 }
 
@@ -279,9 +284,9 @@ func (X *Exec) execRunDefers(fr *Frame, i *ssa.RunDefers, st *State) {
 		}
 		// conditional defer: run it on the paths that registered it
 		with := st.Clone()
-		with.assume(ts, d.Guard)
+		with.branch(ts, d.Guard)
 		without := st.Clone()
-		without.assume(ts, ts.Not(d.Guard))
+		without.branch(ts, ts.Not(d.Guard))
 		X.execCallWith(fr, d.Instr, &d.Instr.Call, with, "defer", d.Fn, d.Args)
 		m := X.merge([]*State{with, without})
 		*st = *m
@@ -417,7 +422,7 @@ func (X *Exec) execCallWith2(fr *Frame, ins ssa.Instruction, cc *ssa.CallCommon,
 		if fnv != nil && fnv.T != nil {
 			X.oblige(st, "nil", "", "call of nil function value "+srcName(cc.Value), pos, ts.Not(ts.Eq(fnv.T, ts.IntLit(0))))
 		}
-		X.Uncontracted["dynamic call "+srcName(cc.Value)]++
+		X.Uncontracted["dynamic call "+srcName(cc.Value)+" in "+X.E.P.Keys[fr.Fn]]++
 		X.havocAll(st, "dyn")
 		return X.freshResults(st, cc, "dyn")
 	}
@@ -428,6 +433,7 @@ func (X *Exec) callFunction(fr *Frame, ins ssa.Instruction, callee *ssa.Function
 	pos := ins.Pos()
 	key := X.E.P.Keys[callee]
 	inRepo := key != ""
+	var instance *ssa.Function // the instantiation actually called, when callee is replaced by its generic origin
 	if !inRepo {
 		key = externKey(callee)
 		// synthetic wrappers / instantiations of generic functions
@@ -435,6 +441,10 @@ func (X *Exec) callFunction(fr *Frame, ins ssa.Instruction, callee *ssa.Function
 			if k := X.E.P.Keys[callee.Origin()]; k != "" {
 				key, inRepo = k, true
 				X.pendingTypeArgs = callee.TypeArgs()
+				instance = callee
+				if os.Getenv("GOVC_DBG") != "" {
+					fmt.Fprintf(os.Stderr, "instance %s synthetic=%q blocks=%d\n", instance, instance.Synthetic, len(instance.Blocks))
+				}
 				callee = callee.Origin()
 			}
 		}
@@ -453,10 +463,21 @@ func (X *Exec) callFunction(fr *Frame, ins ssa.Instruction, callee *ssa.Function
 		fs = X.E.Specs.Funcs[key]
 	} else {
 		fs = X.E.Specs.Funcs["extern:"+key]
+		if fs == nil {
+			if i := strings.Index(key, "["); i >= 0 {
+				fs = X.E.Specs.Funcs["extern:"+key[:i]] // any instantiation of a generic function
+			}
+		}
 	}
 	if fs != nil && !fs.Inline && (len(fs.Ensures) > 0 || len(fs.Requires) > 0 || fs.Pure || fs.ModAll || len(fs.Modifies) > 0 || fs.Trusted) {
 		X.pendingBindings = bindings
 		return X.applyContract(fr, st, fs, callee, nil, cc, args, pos)
+	}
+	X.pendingTypeArgs = nil
+	if instance != nil && instance.Blocks != nil && X.canInline(instance) {
+		// inline the instantiation itself: its values have the sorts of the actual type arguments
+		X.Inlined[key]++
+		return X.inlineCall(fr, st, instance, bindings, args, pos)
 	}
 	if inRepo && callee.Blocks != nil && X.canInline(callee) {
 		return X.inlineCall(fr, st, callee, bindings, args, pos)
@@ -916,8 +937,8 @@ func (X *Exec) execInvoke(fr *Frame, ins ssa.Instruction, cc *ssa.CallCommon, st
 		defer func() { X.iteDepth-- }()
 		cnd := recv.T.Args[0]
 		s1, s2 := st.Clone(), st.Clone()
-		s1.assume(ts, cnd)
-		s2.assume(ts, ts.Not(cnd))
+		s1.branch(ts, cnd)
+		s2.branch(ts, ts.Not(cnd))
 		r1 := X.execInvoke(fr, ins, cc, s1, &Val{T: recv.T.Args[1], GT: recv.GT}, args)
 		r2 := X.execInvoke(fr, ins, cc, s2, &Val{T: recv.T.Args[2], GT: recv.GT}, args)
 		m := X.merge([]*State{s1, s2})
@@ -941,7 +962,11 @@ func (X *Exec) execInvoke(fr *Frame, ins ssa.Instruction, cc *ssa.CallCommon, st
 	// 2. contract on the interface method
 	recvT := cc.Value.Type()
 	tn := typeKey(recvT)
-	for _, k := range []string{"iface:" + tn + "." + cc.Method.Name()} {
+	keys := []string{"iface:" + tn + "." + cc.Method.Name()}
+	if i := strings.Index(tn, "["); i >= 0 {
+		keys = append(keys, "iface:"+tn[:i]+"."+cc.Method.Name()) // any instantiation of a generic interface
+	}
+	for _, k := range keys {
 		if fs := X.E.Specs.Funcs[k]; fs != nil {
 			return X.applyContract(fr, st, fs, nil, recv, cc, args, pos)
 		}
